@@ -33,6 +33,9 @@ def N(kind, vol=3, pan=5):
     return ("note", kind, vol, pan)
 
 
+FULL = dict(title="T" * 63 + "x", artist="A" * 31 + "y", creator="C" * 31 + "z", ojm_file="o" * 28 + ".ojm")
+
+
 def build(ctx, levels, names):
     """levels: 3 lists of packages (measure, channel, events) where a tempo event is ('bpm', name)"""
     ref.reset()
@@ -46,6 +49,8 @@ def build(ctx, levels, names):
         return 60000 / L[name]
 
     h = dict(HDR)
+    if names == "full-width-strings":
+        h.update(FULL)
     h["bpm"] = bpm("init")
     h["package_count"] = [len(l) for l in levels]
     b = ref.header(h)
@@ -60,10 +65,10 @@ def build(ctx, levels, names):
     return b, h, sym_levels
 
 
-def ob_read(levels, ctx):
+def ob_read(levels, ctx, header=None):
     from reamber.o2jam import O2JMapSet
 
-    data, h, sym_levels = build(ctx, levels, None)
+    data, h, sym_levels = build(ctx, levels, header)
     if hook.installed():
         _install_unpack()
     try:
@@ -125,6 +130,7 @@ def level_sets():
     S["ln-across-tempo"] = [(0, 5, [N("head")]), (1, 1, [None, B("a")]), (3, 5, [None, N("tail"), None]), (3, 1, [B("b")]), (4, 8, [N("hit")])]
     S["all-columns"] = [(0, 2 + i, [N("hit") if j == i % 4 else None for j in range(4)]) for i in range(7)] + [(0, 1, [None, B("a")])]
     S["48-events"] = [(0, 2, [N("hit") if j in (1, 47) else None for j in range(48)]), (0, 1, [B("a") if j == 24 else None for j in range(48)])]
+    S["two-tempo-packages-one-measure"] = [(1, 1, [None, None, None, B("a")]), (1, 1, [None, B("b")]), (0, 2, [N("hit")]), (1, 2, [None, None, N("hit"), None]), (2, 3, [N("head"), None]), (3, 3, [N("tail")])]
     S["empty"] = []
     return S
 
@@ -139,5 +145,7 @@ def obligations(tier, seed):
         obs.append(Obligation("C07/read/%s" % n, partial(ob_read, [S[n], S[others[0]], S[others[1]]]),
                               bound="OJN with difficulties %s / %s / %s; header tempo and every tempo event symbolic; 300-byte header with a distinct value per field" % (n, others[0], others[1])))
         obs.append(Obligation("C07/read/%s/reversed-packages" % n, partial(ob_read, [list(reversed(S[n])), [], S[others[0]]]),
-                              bound="same packages in reverse file order (difficulty %s)" % n)) if "ln" not in n else None
+                              bound="same packages in reverse file order (difficulty %s)" % n)) if not any(e is not None and e[0] == "note" and e[1] != "hit" for _m, _c, evs in S[n] for e in evs) else None
+    obs.append(Obligation("C07/read/full-width-header-strings", partial(ob_read, [S["one-tempo-mid"], [], []], header="full-width-strings"),
+                          bound="title/artist/noter/ojm fields filled to their full 64/32 bytes (no terminating NUL)"))
     return obs
